@@ -5,7 +5,7 @@
     The log is kept newest first.  Times are integers (dyadic rationals scaled by 2^k). *)
 From Coq Require Import List Arith ZArith Bool Permutation.
 From TwLib Require Import TimersCall TimersHeap.
-From C08 Require Import Model Proofs.
+From C08 Require Import Model Proofs ProofsCount.
 Import ListNotations.
 Local Open Scope Z_scope.
 
@@ -80,3 +80,23 @@ Theorem timeout_le_time_to_earliest : forall body fuel ops L,
   end.
 Proof. exact timeout_sound. Qed.
 Print Assumptions timeout_le_time_to_earliest.
+
+(** the private counter _cancellations (it decides when runUntilCurrent compacts the heap) never exceeds the
+    number of cancelled calls really stored in the heap and the staging list: compaction never fires without
+    more than 50 such entries ... *)
+Theorem cancellations_counter_never_overcounts : forall body fuel ops,
+  let s := run body fuel init ops in cancels s <= ncanc (hp s ++ nw s).
+Proof. exact reach_cnt. Qed.
+Print Assumptions cancellations_counter_never_overcounts.
+
+(** ... but it is not that number ("_cancellations = cancelled entries stored" is FALSE of the current code):
+    compaction zeroes it while a call that a running call scheduled and cancelled in the same iteration is still
+    in the staging list; from then on it undercounts (here it reaches -1), and every such event delays later
+    compactions by one more entry.  Nothing the property observes depends on the counter. *)
+Theorem cancellations_counter_is_not_exact :
+  let s1 := run cnt_body 400 init cnt_ops in
+  let s2 := step cnt_body 400 s1 RunUntilCurrent in
+  (cancels s1 = 0 /\ ncanc (hp s1 ++ nw s1) = 1 /\ length (hp s1) = 8%nat)
+  /\ (cancels s2 = -1 /\ ncanc (hp s2 ++ nw s2) = 0) /\ oof s2 = false.
+Proof. exact cancellations_counter_undercounts. Qed.
+Print Assumptions cancellations_counter_is_not_exact.
